@@ -128,7 +128,7 @@ class ExprMixin(object):
 
 def operandtostring(operand, tostring):
     """Renders an operand of an expression, parenthesised if Python would otherwise bind it differently (unary sub-expressions, negative constants)."""
-    text = tostring(operand)
+    text = tostring(operand) if isinstance(operand, ExprMixin) else repr(operand)
     if isinstance(operand, UniExpr):
         return "(%s)" % (text,)
     if isinstance(operand, (int, float)) and not isinstance(operand, bool) and text.startswith("-"):
